@@ -140,9 +140,8 @@ Definition wrap_base64 (data block_type headers : bytes) (space : bool) (wrap : 
 
 (* ------------------------------------------------------------------------------------------- *)
 (* misc.match_base64: search for the footer line.
-   The real code builds the regular expression  ^ header[:5] END header[10:] [ \t\n\r\f\v]* $  (re.M)
-   from the header line without escaping it; the model treats the header text literally (headers
-   containing regex metacharacters are outside the model).  Matching semantics of the tail: the
+   The real code builds the regular expression  ^ re.escape(header[:5] END header[10:]) [ \t\n\r\f\v]* $
+   (re.M) from the header line (escaped since 25a6765); the model treats the header text literally.  Matching semantics of the tail: the
    footer text must be followed on its line by whitespace only; the match then extends over following
    whitespace-only lines up to the end of data, or else stops just before the newline that precedes
    the first line with a non-blank character. *)
